@@ -85,6 +85,11 @@ def gen_tree(rng, scratch: str) -> typing.Tuple[Tree, typing.List[bytes], typing
     # a link that passes through a symlinked directory which is stored later in the archive
     t.symlink(b"links-dir/a-through-dirlink.txt", b"../zz-dirlink/in.txt")
     t.symlink(b"zz-dirlink", b"links-dir/tdir")
+    # an archive stored inside the archive (on disk: the same file, browsed by the same handler)
+    inner = Tree().file("in.txt", "inside the inner archive\n").file("d/deep.txt", "deep\n").file("d/page.html", trees.html_doc("Inner"))
+    inner.file("d/.names", "Path=./deep.txt\nName=Deep Renamed\n").dir("d/void")
+    t.file(b"pack/inner.zip", inner.to_zip())
+    t.file(b"pack/beside.txt", "beside\n")
     # a directory can be left implicit only if some member lies below it
     nonempty = {d for d in t.dirs() if any(p.startswith(d + b"/") and n["kind"] != "dir" for p, n in t.nodes.items())}
     implicit = [x for x in t.dirs() if x in nonempty and rng.random() < 0.4]
@@ -98,6 +103,9 @@ def selectors_of(t: Tree, rng) -> typing.List[bytes]:
     # through links
     sels += [b"/links-dir/dir-link/in.txt", b"/links-dir/dir-link", b"/links-dir/dangling-link", b"/links-dir/cycle-a",
              b"/zz-dirlink/in.txt", b"/zz-dirlink"]
+    # below the root of an archive stored in the archive
+    sels += [b"/pack/inner.zip" + x for x in (b"/in.txt", b"/d", b"/d/deep.txt", b"/d/page.html", b"/d/void", b"/nope", b"/d/nope",
+                                               b"/d/.names")]
     # missing names and hostile suffixes
     some = [s for s in sels if s]
     for _ in range(12):
@@ -118,7 +126,14 @@ def differential(chk: Check, sc: Scratch, idx: int) -> None:
     zt.nodes = dict(t.nodes)
     zt.symlink(b"links-dir/abs-link.txt", b"/links-dir/target.txt")
     site_tree.symlink(ARCH + b"/links-dir/abs-link.txt", os.path.join(os.fsencode(root), ARCH, b"links-dir/target.txt"))
-    site_tree.file(ARCH + b".zip", zt.to_zip(explicit_dirs=True, omit_dirs=implicit))
+    # member timestamps as archivers write them: ordinary ones, the all-zero DOS date of tools that record no
+    # time, a seconds field of 30 (:60), the last representable date (timestamps themselves are not compared)
+    odd_dates = [(1980, 0, 0, 0, 0, 0), (2020, 9, 13, 12, 26, 60), (2107, 12, 31, 23, 59, 58), (1980, 1, 1, 0, 0, 0), (2001, 0, 5, 1, 1, 2),
+                 (2001, 2, 31, 1, 1, 2), (1999, 1, 1, 25, 61, 0)]
+    drng = chk.subrng("dates", idx)
+    dates = {p: (drng.choice(odd_dates) if drng.random() < 0.3 else (2020, 9, 13, 12, 26, 40)) for p in sorted(zt.nodes)}
+    chk.count("members_with_odd_dos_dates", sum(1 for d in dates.values() if d in odd_dates))
+    site_tree.file(ARCH + b".zip", zt.to_zip(explicit_dirs=True, omit_dirs=implicit, date_for=dates.get))
     site_tree.materialize(root)
     site = driver.Site(root, handlers=driver.HANDLERS_FULL)
     try:
